@@ -84,7 +84,7 @@ func main() {
 	budget := 5 * time.Minute
 	if run.Thorough() {
 		D, E = 3, 1
-		budget = 45 * time.Minute
+		budget = 90 * time.Minute
 	}
 	run.Set("delay_bound", D)
 	run.Set("server_deviation_bound", E)
